@@ -9,7 +9,10 @@ import (
 	"github.com/tonistiigi/fsutil/util"
 	"io"
 	"os"
+	"path"
 	"path/filepath"
+	"sort"
+	"strings"
 	"sync"
 	"sync/atomic"
 	"testing"
@@ -40,6 +43,9 @@ type c06Case struct {
 	// stream (util.NewProtoStream over pipes); a bridge with an independent
 	// framing codec connects it to the reference receiver
 	Proto bool `json:"proto,omitempty"`
+	// Subs: the view is a composite (SubDirFS) of copies of the tree under these
+	// directory names, handed over in this order
+	Subs []string `json:"subs,omitempty"`
 }
 
 var c06TreeCfg = h.TreeCfg{
@@ -56,6 +62,9 @@ func genC06(t *rapid.T) *c06Case {
 	}
 	c.MemSrc = rapid.Bool().Draw(t, "memsrc")
 	c.Capacity = rapid.SampledFrom([]int{0, 0, 1, 8, 64}).Draw(t, "cap")
+	if c.Many == 0 && rapid.IntRange(0, 5).Draw(t, "composite") == 0 {
+		c.Subs = rapid.Permutation([]string{"zeta", "alpha", "m", "a-b", "a"}).Draw(t, "subs")[:rapid.IntRange(1, 3).Draw(t, "nsubs")]
+	}
 	tr := c06Tree(c)
 	c.Script.ReqLinks = rapid.Bool().Draw(t, "reqlinks")
 	nreq := 0
@@ -292,6 +301,40 @@ func c06Check(env *h.Env, c *c06Case) error {
 		if n.Kind == h.KFile && n.LinkTo != "" {
 			content[n.Path] = content[n.LinkTo] // a link member is a regular file with its group's bytes
 		}
+	}
+	if len(c.Subs) > 0 {
+		env.Class("composite-view")
+		var dirs []fsutil.Dir
+		for _, name := range c.Subs {
+			dirs = append(dirs, fsutil.Dir{Stat: &types.Stat{Path: name, Mode: uint32(os.ModeDir | 0o755)}, FS: f})
+		}
+		cf, err := fsutil.SubDirFS(dirs)
+		if err != nil {
+			return h.Infra(err)
+		}
+		names := append([]string(nil), c.Subs...)
+		sort.Strings(names)
+		var w2 []walked
+		content2 := map[string][]byte{}
+		for _, name := range names {
+			w2 = append(w2, walked{name, &types.Stat{Path: name, Mode: uint32(os.ModeDir | 0o755)}})
+			for _, w := range want {
+				st := w.Stat.Clone()
+				st.Path = name + "/" + st.Path
+				if st.Linkname != "" {
+					if os.FileMode(st.Mode)&os.ModeSymlink == 0 {
+						st.Linkname = name + "/" + st.Linkname
+					} else if strings.HasPrefix(st.Linkname, "/") {
+						st.Linkname = path.Join("/"+name, st.Linkname)
+					}
+				}
+				w2 = append(w2, walked{st.Path, st})
+			}
+			for p, b := range content {
+				content2[name+"/"+p] = b
+			}
+		}
+		f, want, content = cf, w2, content2
 	}
 
 	if c.AbortedBefore > 0 {
